@@ -31,7 +31,7 @@ COMPONENTS = {
     "stub": ["CAN backend (SimBus)", "can.Notifier", "time/queue inside canopen.lss (virtual clock, SimQueue)", "LSS slave (RefLssSlave reference model)"],
 }
 PROBES = ["scan-found", "scan-no-slave", "bit31-set", "inquire", "configure-ok", "configure-error", "wrong-cs", "silence", "late-reply", "selective", "store",
-          "unsolicited-reply-before-scan"]
+          "unsolicited-reply-before-scan", "second-scan-same-master"]
 # probes that mark an injected disturbance; the runner also counts them as fired faults in the evidence
 FAULT_PROBES = {'configure-error': 'lss-error-reply',
  'late-reply': 'lss-late-reply',
@@ -284,3 +284,12 @@ def scenario(ctx):
         if res is True:
             ctx.violation("C18/selective-switch-confirmed-for-wrong-identity", "selective switch with %r confirmed" % (wrong,))
         ctx.cover(("selective", "mismatch", type(exc).__name__ if exc else None))
+    if ctx.choice(3, "rescan") == 0:
+        # the device is taken away and another unconfigured one (another identity) is connected:
+        # the same master object runs the fast-scan procedure again
+        w.lss.send_switch_state_global(w.lss.WAITING_STATE)
+        ctx.run_for(600 * MS)       # (replies still on their way belong to the old device)
+        identity2 = _identity(ctx, 4, 0)
+        w.slave = RefLssSlave(ctx, w.slave.ep, identity2, resp_delay=w.slave.resp_delay)
+        ctx.probe("second-scan-same-master")
+        _scan(ctx, w, identity2, 4)
